@@ -4,12 +4,14 @@
    damaged or crafted, makes it fail), and, record by record, that a TLS session without usable keys or a record that does not
    decrypt contributes nothing; the replay of a TLS session's packets in the decrypt phase never raises either (C03_tls_replay_total).
    Truncation of the capture gives a prefix (C08_tls, C08_quic).  NOT proved: that the builder and the writer never raise (they do
-   for 2^32 plaintext bytes in one direction), and the prefix claim for a packet lost in the middle:
-   these are decided by the fault enumeration of the check, with byte-exact correspondence of the model including the crash
-   outcomes (DESIGN.md, C03). *)
+   for 2^32 plaintext bytes in one direction): decided by the fault enumeration of the check, with byte-exact correspondence of the
+   model including the crash outcomes (DESIGN.md, C03).  A packet lost in the middle: C03_loss_leaves_a_prefix, for the reassembly
+   of one direction (the records handed to the record handler are a beginning of the records sent; that the handler's output for a
+   beginning of the records is a beginning of its output is the fold structure of C08_session_fold; the check's `aligned-loss` and
+   `delete-packet` faults exercise the whole path). *)
 From Coq Require Import ZArith List Bool.
 From Coq Require String.
-Require Import PyLib SuiteTypes SuiteParser Crypto KeySchedule Packet Reassembly Decryptor TlsSession Main C04P C03P QuicDemuxP QuicTotalP TlsTotalP OutputBuilder BuilderP BuilderTotalP.
+Require Import PyLib SuiteTypes SuiteParser Crypto KeySchedule Packet Reassembly Decryptor TlsSession Main C04P C03P QuicDemuxP QuicTotalP TlsTotalP OutputBuilder BuilderP BuilderTotalP ReasmP ReorderP.
 Import ListNotations.
 Open Scope Z_scope.
 
@@ -113,3 +115,15 @@ Theorem C03_session_output_builds : forall C tbl parts keylog rs s s' out, Foral
   C01SessionP.session_run C tbl parts keylog s rs = Ok (s', out) -> exists segs, build out = Ok segs.
 Proof. exact session_output_builds. Qed.
 Print Assumptions C03_session_output_builds.
+
+(* loss: ANY selection of one direction's data segments -- each captured at most once (retransmitted copies are removed beforehand:
+   C05_session_dedupe), the direction's first data segment captured and captured first, the others in any order, any of them lost --
+   releases to the record handler a beginning of the records sent, each byte-exact: a hole stops the stream, and the segments behind
+   it are never joined to the segments before it, whatever their lengths (also when the spliced bytes would again be well framed).
+   chunks / in_order / wf_rec as in C05_reordering; sequence numbers modulo 2^32 from any initial value. *)
+Theorem C03_loss_leaves_a_prefix : forall isn chunks dummy R order,
+  in_order isn chunks -> len (data chunks) < 2147483648 -> Forall wf_rec R -> data chunks = concat R ->
+  NoDup order -> Forall (fun i => (i < length chunks)%nat) order -> match order with [] => True | j :: _ => j = 0%nat end ->
+  exists n' buf recs R2, feed None [] (map (fun i => nth i chunks dummy) order) = Ok (n', buf, recs) /\ R = map r_raw recs ++ R2.
+Proof. intros isn chunks dummy R order Ho Hl HR Hd Hnd Hb Hf. exact (lossy_delivers_prefix chunks isn Ho Hl dummy R order HR Hd Hnd Hb Hf). Qed.
+Print Assumptions C03_loss_leaves_a_prefix.
